@@ -76,6 +76,9 @@ pub struct CosCase {
     pub rules: Vec<CRule>,
     /// hosts named by `@@||host^$generichide` rules
     pub generichide: Vec<String>,
+    /// `@@<*|||host^>$generichide,domain=[~]d` rules: (host or None for `*`, domain, negated)
+    #[serde(default)]
+    pub generichide_dom: Vec<(Option<String>, String, bool)>,
     pub pages: Vec<Page>,
 }
 
@@ -97,6 +100,11 @@ impl Case for CosCase {
         for i in 0..self.generichide.len() {
             let mut c = self.clone();
             c.generichide.remove(i);
+            v.push(c);
+        }
+        for i in 0..self.generichide_dom.len() {
+            let mut c = self.clone();
+            c.generichide_dom.remove(i);
             v.push(c);
         }
         for i in 0..self.rules.len() {
@@ -190,6 +198,10 @@ pub fn check_case(c: &CosCase, obs: &mut Obs) -> Result<(), String> {
     for h in &c.generichide {
         lines.push(format!("@@||{}^$generichide", h));
     }
+    for (h, d, neg) in &c.generichide_dom {
+        let pat = match h { Some(h) => format!("||{}^", h), None => "*".to_string() };
+        lines.push(format!("@@{}${},domain={}{}", pat, if d.len() % 2 == 0 { "generichide" } else { "ghide" }, if *neg { "~" } else { "" }, d));
+    }
     let res = scriptlet_resources();
     let e = build_engine(&lines, false, true, &res);
     for p in &c.pages {
@@ -202,6 +214,19 @@ pub fn check_case(c: &CosCase, obs: &mut Obs) -> Result<(), String> {
             // the rule parser strips a leading "www." from hostname anchors by design
             let a = pat::parse(&format!("||{}^", ascii(h).trim_start_matches("www.")));
             pat::matches(&a, &format!("https://{}/index.html", host_a), &host_a, 8)
+        });
+        // ... possibly restricted by a domain= list: the page is its own initiator
+        let gh = gh || c.generichide_dom.iter().any(|(h, d, neg)| {
+            let pat_ok = match h {
+                Some(h) => {
+                    let a = pat::parse(&format!("||{}^", ascii(h).trim_start_matches("www.")));
+                    pat::matches(&a, &format!("https://{}/index.html", host_a), &host_a, 8)
+                }
+                None => true,
+            };
+            let d = ascii(d);
+            let covered = host_a == d || host_a.ends_with(&format!(".{}", d));
+            pat_ok && (covered != *neg)
         });
         let mut hide: BTreeSet<String> = BTreeSet::new();
         let mut unhide: BTreeSet<String> = BTreeSet::new();
@@ -390,11 +415,28 @@ fn decode(t: &mut Tape) -> CosCase {
             _ => format!("x{}", p.reg),
         });
     }
-    CosCase { rules, generichide, pages }
+    let mut generichide_dom = vec![];
+    if t.chance(1, 3) {
+        let p = t.choose_ref(&pages).clone();
+        let h = match t.pick(3) {
+            0 => None,
+            1 => Some(p.reg.clone()),
+            _ => Some(p.host.clone()),
+        };
+        let d = match t.pick(5) {
+            0 => p.host.clone(),
+            1 => p.reg.clone(),
+            2 => format!("sub.{}", p.host),
+            3 => p.suffix.clone(),
+            _ => "unrelated.org".to_string(),
+        };
+        generichide_dom.push((h, d, t.chance(1, 3)));
+    }
+    CosCase { rules, generichide, generichide_dom, pages }
 }
 
 pub fn check(ctx: &mut Ctx) {
-    ctx.rule = "1-10 cosmetic rules with 0-3 locations drawn relative to the page hosts (the host itself, registrable domain, an intermediate parent, the public suffix, a deeper name, a look-alike, another site, entity forms with and without subdomain labels, 1/5 negated), '##' or '#@#', bodies = plain selector / :style / :remove / :remove-attr / :remove-class / +js(name[, arg]) / blanket '#@#+js()', plus optional '@@||h^$generichide' rules; 1-3 page hosts over 9 sites (multi-label public suffixes, IDN) with 0-4 extra subdomain labels. Oracle: independent coverage model (label suffixes down to the registrable domain, the public suffix, entity = label suffix of host minus suffix), set algebra for hide/exceptions/actions/scriptlets, generic non-class/id selectors unless generichide, generichide via the pattern reference model; actions compared as parsed JSON, scriptlets by unique template markers. Non-trivial = page with >= 3 labels covered through a parent/entity location, or an exception that removes something.".into();
+    ctx.rule = "1-10 cosmetic rules with 0-3 locations drawn relative to the page hosts (the host itself, registrable domain, an intermediate parent, the public suffix, a deeper name, a look-alike, another site, entity forms with and without subdomain labels, 1/5 negated), '##' or '#@#', bodies = plain selector / :style / :remove / :remove-attr / :remove-class / +js(name[, arg]) / blanket '#@#+js()', plus optional '@@||h^$generichide' rules and '@@(*|||h^)$generichide,domain=[~]d' rules (d = page host / registrable domain / deeper / public suffix / unrelated); 1-3 page hosts over 9 sites (multi-label public suffixes, IDN) with 0-4 extra subdomain labels. Oracle: independent coverage model (label suffixes down to the registrable domain, the public suffix, entity = label suffix of host minus suffix), set algebra for hide/exceptions/actions/scriptlets, generic non-class/id selectors unless generichide, generichide via the pattern reference model; actions compared as parsed JSON, scriptlets by unique template markers. Non-trivial = page with >= 3 labels covered through a parent/entity location, or an exception that removes something.".into();
     ctx.assumptions = vec![
         "entity names are never equal to a public-suffix label and hostname locations always contain a dot unless they are the page's public suffix (the two namespaces share hash bins in the implementation; coinciding spellings are outside the property)".into(),
         "registrable domain / public suffix of page hosts are known by construction".into(),
